@@ -39,6 +39,7 @@ def plan(tier, seed):
     specs = pipework.plan_programs(tier, seed, "C07", nshards=16 if q else 48, per_shard=22 if q else 200)
     specs += [{"mode": "cli", "seed": seed, "shard": i, "n": 14 if q else 120} for i in range(4)]
     specs += [{"mode": "closings"}]
+    specs += [{"mode": "decls", "seed": seed, "shard": i, "n": 400 if q else 12000} for i in range(8)]
     return specs
 
 
@@ -197,6 +198,29 @@ def run_closings(spec):
     return sh
 
 
+def run_decls(spec):
+    """declaration-shaped statements in random order (G-DECL): the segmentation monitors on whatever the rules make
+    of them - every matched statement claims >= 1 token, the registry pops what was claimed, statements tile the
+    token list, an unrecognised token ends in the fatal diagnostic"""
+    from nv.gen import decls
+    sh = Shard(max_per_sig=3)
+    r = random.Random("c07decls/%s/%d" % (spec["seed"], spec["shard"]))
+    for _ in range(spec["n"]):
+        name, src = decls.source(r)
+        run = core.api_run(name, src, clock=False)
+        case = {"name": name, "src": src, "mode": "api"}
+        sh.case(name + "\0" + src, nontrivial=len(run.sess.stmts) >= 2)
+        sh.tally("runs", "decl_shaped")
+        sh.add_asserts({k: v for k, v in run.sess.asserts.items() if k.startswith("seg.")})
+        pipework.monitor_failures(sh, run, case, seg=True)
+        if run.sess.unrec:
+            sh.count("c07.unrecognised_events", len(run.sess.unrec))
+            sh.count("c07.unrecognised_implies_fatal")
+            if run.outcome == "ok":
+                sh.violation("unrecognised_dropped", ("decl_shaped",), case, {"status": run.status, "first": run.sess.unrec[0]})
+    return sh
+
+
 def run_cli(spec):
     """CLI view: a run in which the monitor saw an unrecognised token prints the fatal form and exits non-zero"""
     sh = Shard()
@@ -234,6 +258,8 @@ def run_cli(spec):
 def run_shard(spec):
     if spec["mode"] == "closings":
         return run_closings(spec).result()
+    if spec["mode"] == "decls":
+        return run_decls(spec).result()
     if spec["mode"] == "cli":
         return run_cli(spec).result()
     return run_programs(spec).result()
